@@ -5,6 +5,9 @@
      G <gtype>   g_irepository_find_by_gtype (the GType is registered on the fly as a boxed type)
      E <domain>  g_irepository_find_by_error_domain
      T <gtype>   g_typelib_get_dir_entry_by_gtype_name (typelib level)
+   With `lazy` (may be combined: `lazynoindex`) every G and E probe is first asked of the still empty
+   repository (all miss), the typelib is then loaded with G_IREPOSITORY_LOAD_FLAG_LAZY, and the probes
+   are asked again: an earlier miss must not outlive the load.
    First prints the directory: D <i> <name> for every info. */
 #include <girepository.h>
 #include "gitypelib-internal.h"
@@ -19,7 +22,8 @@ int main (int argc, char **argv)
   gchar *data; gsize len; GError *err = NULL;
   setvbuf (stdout, NULL, _IONBF, 0);
   if (!g_file_get_contents (argv[1], &data, &len, NULL)) return 2;
-  if (argc > 3 && strcmp (argv[3], "noindex") == 0)
+  int lazy = argc > 3 && strstr (argv[3], "lazy") != NULL;
+  if (argc > 3 && strstr (argv[3], "noindex") != NULL)
     {
       Header *h = (Header *) data;
       if (h->sections)
@@ -29,14 +33,25 @@ int main (int argc, char **argv)
   GITypelib *t = g_typelib_new_from_memory ((guint8 *) data, len, &err);
   if (!t) { printf ("BAD %s\n", err->message); return 3; }
   { gchar *dir = g_path_get_dirname (argv[1]); g_irepository_prepend_search_path (dir); }   /* dependencies live beside it */
-  const char *ns = g_irepository_load_typelib (NULL, t, 0, &err);
+  gchar *pdata; gsize plen;
+  if (!g_file_get_contents (argv[2], &pdata, &plen, NULL)) return 2;
+  char **probes = g_strsplit (pdata, "\n", 0);
+  if (lazy)
+    for (char **p = probes; *p; p++)
+      {
+        const char *s = *p; if (!s[0]) continue;
+        const char *arg = s + 2; GIBaseInfo *info = NULL;
+        if (s[0] == 'G')
+          { GType gt = g_type_from_name (arg); if (!gt) gt = g_boxed_type_register_static (g_strdup (arg), cp, fr);
+            info = g_irepository_find_by_gtype (NULL, gt); }
+        else if (s[0] == 'E') info = (GIBaseInfo *) g_irepository_find_by_error_domain (NULL, g_quark_from_string (arg));
+        if (info) { printf ("BAD the empty repository found %s\n", arg); return 3; }
+      }
+  const char *ns = g_irepository_load_typelib (NULL, t, lazy ? G_IREPOSITORY_LOAD_FLAG_LAZY : 0, &err);
   if (!ns) { printf ("BAD %s\n", err->message); return 3; }
   int n = g_irepository_get_n_infos (NULL, ns);
   for (int i = 0; i < n; i++)
     { GIBaseInfo *info = g_irepository_get_info (NULL, ns, i); printf ("D %d %s\n", i, g_base_info_get_name (info)); g_base_info_unref (info); }
-  gchar *pdata; gsize plen;
-  if (!g_file_get_contents (argv[2], &pdata, &plen, NULL)) return 2;
-  char **probes = g_strsplit (pdata, "\n", 0);
   for (char **p = probes; *p; p++)
     {
       const char *s = *p; if (!s[0]) continue;
